@@ -253,4 +253,43 @@ inline const char *code_name(RegisterAccessCode c) {
     return "?";
 }
 
+
+// ---- tables with an area that ends exactly at the top of the 32-bit register address space (base + size == 2^32).
+// They are built and judged by hand: the flat model (and AreaD::end()) computes in 32 bits like the library does.
+struct TopTable {
+    RegisterArea areas[3]; RegisterEntry entries[5]; RegisterTable t;
+    uint16_t low[8], top[0x100];
+    uint32_t topsize;
+    // area 0: [0, 8) with u16 range 10..100 (default 20) at 0, u16 max 200 (default 40) at 1, s32 range -5..5 (default 0) at 2;
+    // area 1: [2^32 - topsize, 2^32), without registers unless top_register
+    TopTable(uint32_t topsize_, bool top_register, bool big) : topsize(topsize_) {
+        memset(areas, 0, sizeof areas); memset(entries, 0, sizeof entries); memset(&t, 0, sizeof t);
+        for (auto &w : low) w = 0xbeef; for (auto &w : top) w = 0x7a7a;
+        areas[0].flags = REG_AF_RW; areas[0].base = 0; areas[0].size = 8; areas[0].read = reg_mem_read; areas[0].write = reg_mem_write; areas[0].mem = low;
+        areas[1].flags = REG_AF_RW; areas[1].base = (uint32_t)(0u - topsize); areas[1].size = topsize; areas[1].read = reg_mem_read; areas[1].write = reg_mem_write; areas[1].mem = top;
+        size_t n = 0;
+        auto reg = [&](int type, uint32_t addr, int ck, uint64_t lo, uint64_t hi, uint64_t def) {
+            RegisterEntry &e = entries[n++]; e.type = (RegisterType)type; e.address = addr; e.default_value = to_valueu(type, def, 0);
+            e.check.type = (RegisterValidatorType)ck;
+            if (ck == rm::C_RANGE) { e.check.arg.range.min = to_valueu(type, lo, 0); e.check.arg.range.max = to_valueu(type, hi, 0); }
+            if (ck == rm::C_MAX) e.check.arg.max = to_valueu(type, hi, 0);
+        };
+        reg(rm::U16, 0, rm::C_RANGE, 10, 100, 20);
+        reg(rm::U16, 1, rm::C_MAX, 0, 200, 40);
+        reg(rm::S32, 2, rm::C_RANGE, (uint64_t)-5, 5, 0);
+        if (top_register) reg(rm::U16, areas[1].base, rm::C_NONE, 0, 0, 9);
+        entries[n].type = REG_TYPE_INVALID;
+        t.area = areas; t.entry = entries;
+        register_make_bigendian(&t, big);
+    }
+    // do the three constrained registers of the low area still hold acceptable values?
+    bool low_invariant() {
+        RegisterValue v;
+        if (register_get(&t, 0, &v).code != REG_ACCESS_SUCCESS || v.value.u16 < 10 || v.value.u16 > 100) return false;
+        if (register_get(&t, 1, &v).code != REG_ACCESS_SUCCESS || v.value.u16 > 200) return false;
+        if (register_get(&t, 2, &v).code != REG_ACCESS_SUCCESS || v.value.s32 < -5 || v.value.s32 > 5) return false;
+        return true;
+    }
+};
+
 } // namespace rg
